@@ -306,6 +306,9 @@ class Check:
                 # renyi2_entropy / stdrenyi2_entropy of pyrepseq/entropy.py re-translated over the reals, the statistics they call as
                 # parameters (C13_source_*)
                 changed += [body_translator(load("gen_formulas").gen_entropy)]
+                # C13_source_entropies_of_sample composes them with the translated bodies of pc and stdpc
+                changed += [body_translator(lambda: load("gen_formulas").gen_group("pc"))]
+                changed += [body_translator(load("gen_formulas").gen_std)]
             if self.pid in ("C02", "C06", "C16"):
                 # formulas of pyrepseq/stats.py re-translated into Lean definitions (Cxx_source_* prove they are the models)
                 changed += [body_translator(lambda: load("gen_formulas").gen_group("pc" if self.pid != "C16" else "richness"))]
